@@ -37,7 +37,7 @@ META = {
                    'False and a callable x fail-on-missing-result x default result x recording enabled/disabled = 480 rows) is enumerated '
                    'completely against a fixed program pair on all three cassettes; beyond it seeded random pairs (P, P\') with present and '
                    'absent requests, renamed aliases with fallback lists, 1-3 replays.  A reference model of the documented policy predicts '
-                   'every call; wrapped bodies are journaled (tripwire); a spy plus a byte snapshot prove the cassette is untouched. Also: the library\'s DEBUG logging switched on (logging is not behaviour), and a run-original body that itself calls recorded inputs and an output. An input data handler that fails to restore a present entry in replay; the same call on the other instance of a resolver input.'),
+                   'every call; wrapped bodies are journaled (tripwire); a spy plus a byte snapshot prove the cassette is untouched. Also: the library\'s DEBUG logging switched on (logging is not behaviour), and a run-original body that itself calls recorded inputs and an output. An input data handler that fails to restore a present entry in replay; the same call on the other instance of a resolver input. A replay started by a recorded operation while its own recording is in progress on the same recorder.'),
     'level_note': 'Trusted: the reference policy model in this file (about 60 lines), the environment journal, byte snapshots of the stores. Programs without nested interceptions (run-original of an outer body re-enters interception).',
     'rule': ('evaluation = one (P, P\', options) pair replayed 1-3 times; non-trivial = P\' made at least one request that is absent from the '
              'recording or was answered through a fallback alias; distinct = distinct event-log digest. exhaustive=true refers to the 480-row option table.'),
@@ -60,8 +60,12 @@ def run_tape(tape):
             return table_row(tape, clock)
         debug = tape.draw(4) == 3
         with seams.debug_logging(debug):
-            if mode == 3 and tape.draw(2) == 1:
-                return nested_in_run_original(tape, clock)
+            if mode == 3:
+                sub = tape.draw(3)
+                if sub == 1:
+                    return nested_in_run_original(tape, clock)
+                if sub == 2:
+                    return replay_during_recording(tape, clock)
             return random_pair(tape, clock, debug)
 
 
@@ -663,6 +667,112 @@ def nested_in_run_original(tape, clock):
     return run
 
 
+def replay_during_recording(tape, clock):
+    """History: a recording is in progress on the recorder (recording enabled) when a saved recording is replayed - the
+    recorded operation itself replays it from its plain code, before, between or after its own interceptions.  The replay
+    still answers every call from the recording, runs no body, and leaves no trace in the recording being made."""
+    run = Run(PROP)
+    run.probe('replay_while_a_recording_is_in_progress')
+    run.nontrivial = True
+    store = C.gen_store(tape, clock)
+    n_out = tape.draw(4)
+    place = tape.draw(4)             # 0 before the first interception ... 3 after the last
+    reps = 1 + tape.draw(2)
+    arg = tape.choice([3, 'usd', (2, 'x'), 0])
+    run.say('replay of a saved recording (%d outputs) %d time(s) from inside a recorded operation, at position %d; cassette %s'
+            % (n_out, reps, place, store.describe()))
+    run.ev('case-during', n_out, place, reps, V.srepr(arg), store.describe())
+    try:
+        spy = R.SpyCassette(store.open(), run)
+        recorder = TapeRecorder(spy)
+        recorder.enable_recording()
+        journal, world, found = [], {'k': 1}, []
+
+        class Inner(object):
+            @recorder.operation()
+            def execute(self, a):
+                r = self.rate(a)
+                return [r, [self.send(r, i) for i in range(n_out)]]
+
+            @recorder.intercept_input('inner_rate')
+            def rate(self, a):
+                journal.append(('rate', a))
+                return [world['k'], a]
+
+            @recorder.intercept_output('inner_send')
+            def send(self, r, i):
+                journal.append(('send', i))
+                return 'sent-%d-%d' % (i, world['k'])
+
+        class Outer(object):
+            @recorder.operation()
+            def execute(self):
+                got = []
+                for pos in range(4):
+                    if pos == place:
+                        for _ in range(reps):
+                            del journal[:]
+                            try:
+                                pb = recorder.play(rid0, lambda r_: Inner().execute(arg))
+                                found.append(('played', sorted((o.key, V.srepr(o.value)) for o in pb.playback_outputs), list(journal)))
+                            except Exception as ex:      # judged below, the outer operation goes on
+                                found.append(('raised', ex, list(journal)))
+                    if pos == 0:
+                        got.append(self.read('a'))
+                    elif pos == 1:
+                        got.append(self.emit(got[0]))
+                    elif pos == 2:
+                        got.append(self.read('b'))
+                return got
+
+            @recorder.intercept_input('outer_read')
+            def read(self, name):
+                return [name, world['k']]
+
+            @recorder.intercept_output('outer_emit')
+            def emit(self, v):
+                return 'emitted'
+        R.D.register('Inner', Inner)
+        R.D.register('Outer', Outer)
+        live0 = Inner().execute(arg)
+        rid0 = [c[1] for c in spy.mutations() if c[0] == 'save'][0]
+        r0 = spy.inner.get_recording(rid0)
+        snap0 = sorted((k, V.srepr(r0.get_data(k))) for k in r0.get_all_keys())
+        expected = sorted((o.key, V.srepr(o.value)) for o in TapeRecorder._extract_recorded_output(r0))
+        world['k'] = 5
+        spy.calls[:] = []
+        Outer().execute()
+        run.ev('found', [(f[0], V.srepr(f[1]) if f[0] == 'played' else type(f[1]).__name__, f[2]) for f in found])
+        for f in found:
+            if f[0] == 'raised':
+                run.violate('policy_outcome', 'play-raised:%s@replay-during-recording' % type(f[1]).__name__,
+                            'replay of a present recording raised %r while another recording was in progress' % (f[1],))
+                continue
+            run.check(not f[2], 'bodies_not_executed', 'unexpected-body:replay-during-recording',
+                      lambda: 'bodies executed during the replay: %s' % f[2])
+            run.check(f[1] == expected, 'policy_outcome', 'wrong-answer:replay-during-recording',
+                      lambda: 'recorded outputs %s, replay produced %s' % (expected, f[1]))
+        calls = spy.mutations()
+        saved = [c[1] for c in calls if c[0] == 'save']
+        run.check([c[0] for c in calls] == ['create', 'save'] and rid0 not in saved, 'cassette_untouched', 'cassette-call:replay-during-recording',
+                  lambda: 'expected the one recording of the outer operation to be created and saved, saw %s' % calls)
+        cas2 = store.open(read_only=True)
+        r0b = cas2.get_recording(rid0)
+        snap1 = sorted((k, V.srepr(r0b.get_data(k))) for k in r0b.get_all_keys())
+        run.check(snap0 == snap1, 'cassette_untouched', 'durable-state-changed:replay-during-recording',
+                  'the replayed recording changed in the cassette')
+        for rid in saved:
+            if rid == rid0:
+                continue
+            keys = sorted(cas2.get_recording(rid).get_all_keys())
+            foreign = [k for k in keys if 'inner_' in k]
+            run.check(not foreign, 'cassette_untouched', 'replay-left-keys-in-the-recording-in-progress',
+                      lambda: 'the recording made meanwhile holds keys of the replayed operation: %s' % foreign)
+    finally:
+        store.close()
+    return run
+
+
 def run_index(i, seed, tier, emit):
     mod = sys.modules[__name__]
     if i < NCHUNKS:
@@ -672,3 +782,6 @@ def run_index(i, seed, tier, emit):
         return
     t = Tape(seed, prefix=[[0, 0, 3][i % 3]])
     emit(safe_run_tape(mod, t), t)
+    if i % 3 == 2:
+        t = Tape(seed, prefix=[3, 0, 2])
+        emit(safe_run_tape(mod, t), t)
